@@ -1781,8 +1781,82 @@ fn c17_wakeup_lost_before_idle(dir: PathBuf) -> ScenFut<'static> {
     })
 }
 
+fn c04_rollback_forgets_earlier_committer(dir: PathBuf) -> ScenFut<'static> {
+    Box::pin(async move {
+        let cfg = Cfg { max_memtable_size: 16 * 1024, ..base_cfg() };
+        let t = cfg.open(&dir).map_err(|e| e.to_string())?;
+        // T2 begins first (it will write k at the very end)
+        let mut t2 = t.begin().map_err(|e| e.to_string())?;
+        let seen = t2.get(&b"k"[..]).map_err(|e| e.to_string())?;
+        // T1 commits k after T2 began
+        put(&t, &[(b"k", b"v1")]).await?;
+        // T3 begins after T1, writes k with a value that passes the conflict check and the
+        // commit log but cannot be applied (it does not fit the memtable arena): commit fails
+        let big = vec![0x33u8; 16_000];
+        let r3 = put(&t, &[(b"k", &big[..])]).await;
+        // T2, which never saw T1's commit, now writes k
+        t2.set(&b"k"[..], &b"v2"[..]).map_err(|e| e.to_string())?;
+        let r2 = t2.commit().await;
+        drop(t2);
+        let fin = get1(&t, b"k")?;
+        close(t).await;
+        if r3.is_ok() {
+            return Err("harness: the transaction that should fail in its apply step was accepted".into());
+        }
+        match r2 {
+            Err(surrealkv::Error::TransactionWriteConflict) | Err(surrealkv::Error::TransactionRetry) => Ok(()),
+            Err(e) => Err(format!("commit of the overlapping writer failed with an unexpected error: {e}")),
+            Ok(()) => Err(format!(
+                "T2 begins (reads k = {:?}); T1 commits k=v1; T3 (begun after T1) writes k and its commit fails in the apply step ({}), rolling back its conflict-map entry; T2 then writes k and commits successfully although T1 committed k after T2 began: T1's update is lost (k = {:?})",
+                seen.map(|v| String::from_utf8_lossy(&v).to_string()),
+                r3.unwrap_err(),
+                fin.map(|v| String::from_utf8_lossy(&v[..v.len().min(8)]).to_string())
+            )),
+        }
+    })
+}
+
+fn c15_failed_apply_poisons_memtable(dir: PathBuf) -> ScenFut<'static> {
+    Box::pin(async move {
+        let cfg = Cfg { max_memtable_size: 16 * 1024, ..base_cfg() };
+        let t = cfg.open(&dir).map_err(|e| e.to_string())?;
+        // fits the size check (payload below the memtable size) but not the arena: the apply
+        // step of an otherwise empty memtable fails
+        let big = vec![0x44u8; 16_000];
+        let r = put(&t, &[(b"big", &big[..])]).await;
+        let mut later = vec![];
+        for i in 0..3 {
+            later.push(put(&t, &[(format!("k{i}").as_bytes(), b"v")]).await);
+        }
+        let seen = get1(&t, b"k2")?;
+        close(t).await;
+        if r.is_ok() {
+            return Err("harness: the transaction that should fail in its apply step was accepted".into());
+        }
+        if let Some(Err(e)) = later.iter().find(|x| x.is_err()) {
+            return Err(format!("a commit failed in its apply step ({}); every commit after it fails too: {} (the empty memtable with its used-up arena is never replaced)", r.unwrap_err(), e));
+        }
+        if seen.as_deref() != Some(&b"v"[..]) {
+            return Err("a commit acknowledged after the failed one is not readable".into());
+        }
+        Ok(())
+    })
+}
+
 pub fn all() -> Vec<Scenario> {
     vec![
+        Scenario {
+            id: "C15-failed-apply-poisons-memtable",
+            property: "C15",
+            title: "a commit fails in its apply step on an empty memtable, then small commits",
+            run: c15_failed_apply_poisons_memtable,
+        },
+        Scenario {
+            id: "C04-rollback-forgets-earlier-committer",
+            property: "C04",
+            title: "a failed commit rolls back its conflict-map entry for a key an earlier transaction had committed",
+            run: c04_rollback_forgets_earlier_committer,
+        },
         Scenario {
             id: "C17-wakeup-lost-before-idle",
             property: "C17",
